@@ -137,8 +137,9 @@ def terminals(rules):
 
 class Gen:
     """g = object with .int(lo,hi), .choice(seq), .chance(pct) (msv.gen.G)"""
-    def __init__(self, rules, g, max_depth=14, idents=None):
+    def __init__(self, rules, g, max_depth=14, idents=None, special=None):
         self.rules, self.g, self.max_depth = rules, g, max_depth
+        self.special = special or []
         self.idents = idents if idents is not None else []
         self.budget = 600
 
@@ -150,6 +151,8 @@ class Gen:
             return BUILTIN[name](self.g)
         if name not in self.rules:
             return ""
+        if name == "ident" and self.special and self.g.chance(6):
+            return self.g.choice(self.special)         # keyword-shaped words (true, self, nil, int ...) where a name is expected
         if name == "ident" and self.idents and self.g.chance(70):
             return self.g.choice(self.idents)          # bias toward names already used: gets past name resolution
         mod, e = self.rules[name]
